@@ -122,7 +122,7 @@ func c10Check(c c10Case) (viol string) {
 	return ""
 }
 
-var c10ValueAlphabet = []string{`"`, "a", "\n", "é", " ", `\`}
+var c10ValueAlphabet = []string{`"`, "a", "\n", "\r", "é", " ", `\`}
 
 type c10Args struct {
 	Space  string `json:"space"` // trees | values | groupby
@@ -280,7 +280,7 @@ func c10Run(ctx *rt.Ctx) []*rt.Violation {
 	add(c10Args{Space: "placeholders"}, 1)
 	outs := rt.RunJobs(ctx, jobs, rt.SpawnOpt{})
 	vs := rt.Collect(ctx, outs, nil)
-	ctx.Cov.Note("rule", "every tree of the stated depth/arity over 3 leaves (literal, placeholder, value with quote and newline; single-operand and directly nested same-operator nodes included), every value string up to the stated length over {quote, a, newline, é, space, backslash} in three positions, every group-by list of length 0..3 over 3 identifiers on 3 trees, placeholder numbers {1,2,9,10,99,1000,2^31-2,2^31-1} in 4 tree shapes: parse(format(t)) must succeed and be equal to t after flattening/unwrapping, group-by equal, and format(parse(s1)) == s1 for s1 = format(parse(format(t))); non-trivial = trees with >=2 operators, all value and group-by cases")
+	ctx.Cov.Note("rule", "every tree of the stated depth/arity over 3 leaves (literal, placeholder, value with quote and newline; single-operand and directly nested same-operator nodes included), every value string up to the stated length over {quote, a, newline, carriage return, é, space, backslash} in three positions, every group-by list of length 0..3 over 3 identifiers on 3 trees, placeholder numbers {1,2,9,10,99,1000,2^31-2,2^31-1} in 4 tree shapes: parse(format(t)) must succeed and be equal to t after flattening/unwrapping, group-by equal, and format(parse(s1)) == s1 for s1 = format(parse(format(t))); non-trivial = trees with >=2 operators, all value and group-by cases")
 	ctx.Assumef("column names are valid identifiers and AND/OR nodes have >=1 operand (property precondition)")
 	return vs
 }
